@@ -241,6 +241,119 @@ func execFold(w *casefile.Writer, rev bool, lists [][]uint32) {
 	w.Add(fmt.Sprintf("CFold %s [%s] %s", casefile.Bool(rev), strings.Join(parts, "; "), nlist(out)), "or-tree-fold", k >= 2 && len(out) > 0, in, out)
 }
 
+// ================================================================ TokenLIDs / inverser (unit level)
+
+func u64list(xs []uint64) string {
+	parts := make([]string, len(xs))
+	for i, x := range xs {
+		parts[i] = fmt.Sprint(x)
+	}
+	return "[" + strings.Join(parts, "; ") + "]"
+}
+
+// scripted PutLIDsInQueue / GetLIDs on a real TokenLIDs: duplicates inside a put and across puts, equal
+// (MID,RID) pairs (the LID decides), merges into an already non-empty sorted list
+func tokLIDsCase(w *casefile.Writer, r *rng.R) {
+	n := r.Range(1, 24)
+	mids, rids := make([]uint64, n+1), make([]uint64, n+1)
+	mids[0], rids[0] = math.MaxUint64, math.MaxUint64
+	mspan, rspan := r.Range(1, 6), r.Range(1, 4)
+	for i := 1; i <= n; i++ {
+		mids[i] = 1000 + uint64(r.Intn(mspan))
+		rids[i] = uint64(r.Intn(rspan))
+		if r.Chance(1, 6) {
+			rids[i] = math.MaxUint64 - uint64(r.Intn(2))
+		}
+	}
+	nops := r.Range(2, 9)
+	ops := make([][]uint32, 0, nops+1)
+	coq := make([]string, 0, nops+1)
+	gets, putAfterGet := 0, false
+	for i := 0; i < nops; i++ {
+		if r.Chance(1, 3) {
+			ops = append(ops, nil)
+			coq = append(coq, "TGet")
+			gets++
+			continue
+		}
+		k := r.Range(0, 8)
+		lids := make([]uint32, k)
+		for j := range lids {
+			lids[j] = uint32(r.Range(1, n))
+			if j > 0 && r.Chance(1, 4) {
+				lids[j] = lids[r.Intn(j)] // the same LID twice in one queue batch
+			}
+		}
+		ops = append(ops, lids)
+		coq = append(coq, "TPut "+nlist(lids))
+		if gets > 0 && k > 0 {
+			putAfterGet = true
+		}
+	}
+	ops = append(ops, nil)
+	coq = append(coq, "TGet")
+	in := map[string]any{"mids": mids, "rids": rids, "ops": ops}
+	execTokLIDs(w, mids, rids, ops, coq, putAfterGet, in)
+}
+
+func execTokLIDs(w *casefile.Writer, mids, rids []uint64, ops [][]uint32, coq []string, nontrivial bool, in any) {
+	var out [][]uint32
+	var panicked any
+	func() {
+		defer func() { panicked = recover() }()
+		out = frac.VerifC02TokenLIDs(mids, rids, ops)
+	}()
+	if panicked != nil {
+		w.Violate("tokenlids-panic", fmt.Sprintf("TokenLIDs panics: %v", panicked), in)
+		return
+	}
+	parts := make([]string, len(out))
+	for i, o := range out {
+		parts[i] = nlist(o)
+	}
+	w.Add(fmt.Sprintf("CTokLIDs %s %s [%s] [%s]", u64list(mids), u64list(rids), strings.Join(coq, "; "), strings.Join(parts, "; ")),
+		"token-lids", nontrivial, in, out)
+}
+
+func inverserCase(w *casefile.Writer, r *rng.R) {
+	size := r.Range(1, 30)
+	perm := make([]uint32, 0, size)
+	for i := 1; i < size; i++ {
+		if r.Chance(4, 5) {
+			perm = append(perm, uint32(i))
+		}
+	}
+	rng.Shuffle(r, perm)
+	k := r.Range(0, size+3)
+	unmapped := make([]uint32, k)
+	for i := range unmapped {
+		unmapped[i] = uint32(r.Intn(size + 3)) // 0 (system LID), unmapped LIDs and LIDs beyond the array included
+	}
+	lo := uint32(r.Intn(size + 1))
+	hi := lo + uint32(r.Intn(size+1))
+	if r.Chance(1, 8) && lo > 0 {
+		hi = lo - 1
+	}
+	execInverser(w, perm, size, unmapped, lo, hi)
+}
+
+func execInverser(w *casefile.Writer, values []uint32, size int, unmapped []uint32, lo, hi uint32) {
+	in := map[string]any{"values": values, "size": size, "unmapped": unmapped, "lo": lo, "hi": hi}
+	var out []uint32
+	var ln int
+	var panicked any
+	func() {
+		defer func() { panicked = recover() }()
+		out, ln = frac.VerifC02Inverser(values, size, unmapped, lo, hi)
+	}()
+	if panicked != nil {
+		w.Violate("inverser-panic", fmt.Sprintf("inverser panics: %v", panicked), in)
+		return
+	}
+	w.Add(fmt.Sprintf("CInverser %s %d %s %d %d %s %d", nlist(values), size, nlist(unmapped), lo, hi, nlist(out), ln),
+		"inverser", len(out) > 0 && len(out) < len(unmapped), in, out)
+}
+
 // ================================================================ corpora and queries
 
 type token struct {
@@ -692,6 +805,10 @@ func execCorpus(tmp string, idx int, corpus []doc, reqs []request, cuts []int, i
 	if err != nil {
 		return fail("harness-error", "NewFM: "+err.Error())
 	}
+	// an active fraction of moderate size is reported as a script (bulks and searches in their real order), so
+	// that the transcribed index maintenance (TokenLIDs queues / merges, inverser) is replayed step by step
+	asScript := mode == "active" && len(corpus) <= 100
+	var script []string
 	// several bulks: LIDs of one token arrive in several unsorted queue batches
 	lo := 0
 	for b, hi := range cuts {
@@ -709,6 +826,7 @@ func execCorpus(tmp string, idx int, corpus []doc, reqs []request, cuts []int, i
 		if err := fracbuild.Append(fm, docs); err != nil {
 			return fail("harness-error", "Append: "+err.Error())
 		}
+		script = append(script, "SBulk "+corpusCoq(corpus[lo:hi]))
 		lo = hi
 		// a search between bulks (answer checked like any other, on the documents ingested so far)
 		if b+1 < len(cuts) && hi > 0 && len(fracbuild.Fracs(fm)) == 1 {
@@ -720,6 +838,11 @@ func execCorpus(tmp string, idx int, corpus []doc, reqs []request, cuts []int, i
 				case serr != nil:
 					res.viol = append(res.viol, casefile.Violation{Fingerprint: "search-error:" + errClass(serr), What: "Search fails: " + serr.Error(),
 						Input: map[string]any{"mode": "active", "cuts": cuts[:b+1], "inter": inter, "docs": corpus[:hi], "request": q}})
+				case asScript:
+					script = append(script, "SAsk ("+a.sq+")")
+					if len(a.ans.IDs) > 0 {
+						res.counts = append(res.counts, "script:ask-between-bulks-nonempty")
+					}
 				case len(corpus) <= 100:
 					res.extra = append(res.extra, borderCase{
 						coq:   fmt.Sprintf("CSearch\n   %s\n   [%s]", corpusCoq(corpus[:hi]), a.sq),
@@ -768,6 +891,7 @@ func execCorpus(tmp string, idx int, corpus []doc, reqs []request, cuts []int, i
 		a := as.ans
 		answers = append(answers, a)
 		sqs = append(sqs, as.sq)
+		script = append(script, "SAsk ("+as.sq+")")
 		if len(a.IDs) > 0 {
 			res.counts = append(res.counts, "answer:nonempty")
 			if q.E.has("not") {
@@ -810,6 +934,10 @@ func execCorpus(tmp string, idx int, corpus []doc, reqs []request, cuts []int, i
 	}
 	res.impl = answers
 	res.coq = fmt.Sprintf("CSearch\n   %s\n   [%s]", corpusCoq(corpus), strings.Join(sqs, ";\n    "))
+	if asScript {
+		res.class = "script-active"
+		res.coq = "CScript [\n   " + strings.Join(script, ";\n   ") + "]"
+	}
 	// CBorders cases carry the corpus themselves
 	for i := range res.borders {
 		res.borders[i].coq = strings.Replace(res.borders[i].coq, fmt.Sprintf("corpus_%d", idx), "\n   "+corpusCoq(corpus)+"\n  ", 1)
@@ -885,8 +1013,10 @@ func main() {
 	}
 	r := rng.New(*seed)
 	nNode, nFold, nCorpus, nBig := 1200, 200, 120, 3
+	nUnit := 600
 	if *tier == "thorough" {
 		nNode, nFold, nCorpus, nBig = 10000, 1000, 1000, 14
+		nUnit = 6000
 	}
 
 	// (a) merge nodes over static lists, both directions
@@ -899,6 +1029,14 @@ func main() {
 	// (b) BuildORTree
 	for i := 0; i < nFold; i++ {
 		foldCase(w, r)
+	}
+
+	// (b2) real TokenLIDs and inverser, unit level
+	for i := 0; i < nUnit; i++ {
+		tokLIDsCase(w, r)
+	}
+	for i := 0; i < nUnit/2; i++ {
+		inverserCase(w, r)
 	}
 
 	// (c) real fractions
@@ -1032,6 +1170,14 @@ func doReplay(w *casefile.Writer, path string) {
 		Reverse  bool       `json:"reverse"`
 		Tree     *ntree     `json:"tree"`
 		Lists    [][]uint32 `json:"lists"`
+		Mids     []uint64   `json:"mids"`
+		Rids     []uint64   `json:"rids"`
+		Ops      [][]uint32 `json:"ops"`
+		Values   []uint32   `json:"values"`
+		Size     int        `json:"size"`
+		Unmapped []uint32   `json:"unmapped"`
+		Lo       uint32     `json:"lo"`
+		Hi       uint32     `json:"hi"`
 		Mode     string     `json:"mode"`
 		Cuts     []int      `json:"cuts"`
 		Inter    int        `json:"inter"`
@@ -1049,6 +1195,21 @@ func doReplay(w *casefile.Writer, path string) {
 		nodeCase(w, in.Tree, in.Reverse, "nodes")
 	case in.Lists != nil:
 		execFold(w, in.Reverse, in.Lists)
+	case in.Mids != nil:
+		coq := make([]string, len(in.Ops))
+		for i, o := range in.Ops {
+			if o == nil {
+				coq[i] = "TGet"
+			} else {
+				coq[i] = "TPut " + nlist(o)
+			}
+		}
+		execTokLIDs(w, in.Mids, in.Rids, in.Ops, coq, true, map[string]any{"mids": in.Mids, "rids": in.Rids, "ops": in.Ops})
+	case in.Size > 0:
+		if in.Values == nil {
+			in.Values = []uint32{}
+		}
+		execInverser(w, in.Values, in.Size, in.Unmapped, in.Lo, in.Hi)
 	case in.Docs != nil:
 		tmp, err := os.MkdirTemp("", "verif-c02-")
 		if err != nil {
